@@ -1337,3 +1337,44 @@ func validateCallSites(root, pkg string) ([][2]string, error) {
 	sort.Slice(out, func(i, j int) bool { return out[i][0]+out[i][1] < out[j][0]+out[j][1] })
 	return out, nil
 }
+
+// ---------------------------------------------------------------- clocks on the parse path
+
+// timeUses: calls of the time package (After, Now, Sleep, Tick, NewTimer, NewTicker, AfterFunc, Since, Until) in the
+// functions for which reach says true: a parse that looks at a clock (e.g. a select with a timeout around the token
+// channel) is not a function of its input even though it writes nothing.
+func timeUses(root string, pkgs []string, reach map[string]bool) ([][2]string, error) {
+	clock := map[string]bool{"After": true, "Now": true, "Sleep": true, "Tick": true, "NewTimer": true, "NewTicker": true,
+		"AfterFunc": true, "Since": true, "Until": true}
+	var out [][2]string
+	seen := map[[2]string]bool{}
+	for _, pn := range pkgs {
+		p, err := loadSrcPkg(filepath.Join(root, pn))
+		if err != nil {
+			return nil, err
+		}
+		for _, f := range p.files {
+			imports := fileImports(f)
+			for _, d := range f.Decls {
+				fd, ok := d.(*ast.FuncDecl)
+				if !ok || fd.Body == nil || !reach[funcName(p.name, fd)] {
+					continue
+				}
+				ast.Inspect(fd.Body, func(n ast.Node) bool {
+					if sel, ok := n.(*ast.SelectorExpr); ok {
+						if id, ok := sel.X.(*ast.Ident); ok && id.Obj == nil && imports[id.Name] == "time" && clock[sel.Sel.Name] {
+							e := [2]string{funcName(p.name, fd), "time." + sel.Sel.Name}
+							if !seen[e] {
+								seen[e] = true
+								out = append(out, e)
+							}
+						}
+					}
+					return true
+				})
+			}
+		}
+	}
+	sort.Slice(out, func(i, j int) bool { return out[i][0]+out[i][1] < out[j][0]+out[j][1] })
+	return out, nil
+}
